@@ -6,7 +6,7 @@
      SparseDrugCombo.get_model_state / step / n_obs / reset_model / set_rng (wrappers). *)
 From Coq Require Import ZArith List QArith Qcanon Lia ZifyBool Arith Bool.
 From Batchie Require Import Lib.Sexp Lib.PyRt Lib.Num Model.Gibbs Model.Mvn Generated.SrcGibbs Generated.SrcMvn Generated.SrcGibbsObj
-  Proofs.C08Sums Proofs.C08Cache Proofs.C08Source.
+  Proofs.C08Sums Proofs.C08Cache Proofs.C08Mvn Proofs.C08Source.
 Import ListNotations.
 Open Scope Qc_scope.
 
@@ -547,4 +547,129 @@ Proof.
                  (init_st {| c_D := D; c_ndd := ndd; c_ncl := ncl; c_a0 := a0; c_b0 := b0; c_minMu := mn; c_maxMu := mx |}))
     by (apply reach_rows; constructor).
   split; [exact Hr|]. apply src_sweep_reachable; [exact Hr | exact HD].
+Qed.
+
+(* ================================================================ the MVN draw node becomes the translated function *)
+Lemma gplug_cong q q' k k' : geq q q' -> (forall v, prog_eq (k v) (k' v)) -> prog_eq (gplug q k) (gplug q' k').
+Proof. intros H Hk. induction H as [x|dr k1 k2 _ IH]; cbn [gplug]; [apply Hk|]. constructor. intros a. apply IH. Qed.
+
+Lemma expand_mvn_cong f f' p q : (forall Q b, geq (f Q b) (f' Q b)) -> prog_eq p q ->
+  prog_eq (expand_mvn f p) (expand_mvn f' q).
+Proof.
+  intros Hf H. induction H as [s|dr k1 k2 _ IH]; cbn [expand_mvn]; [apply prog_eq_refl|].
+  destruct dr; try (constructor; intros v; apply IH). apply gplug_cong; [apply Hf | intros v; apply IH].
+Qed.
+
+Lemma mvn_call_cong p q : geq p q -> geq (mvn_call p) (mvn_call q).
+Proof. intros H. unfold mvn_call. apply gbind_cong; [exact H | intros r; apply geq_refl]. Qed.
+
+(* how a block calls it: sample_mvn_from_precision(Q, mu_part=b), every other argument at its default *)
+Definition src_mvn_call chol lin_solve (Q : list (list Qc)) (b : list Qc) : gprog val :=
+  mvn_call (src_sample_mvn_from_precision chol lin_solve Q None (Some b) false None).
+
+(* equal programs stay equal when every DMvn node is replaced by the translated function on one side and by the model's
+   mvn_prog on the other: the Cholesky call, the standard-normal draw node and the two solves take the node's place *)
+Theorem src_mvn_node chol lin_solve p q : prog_eq p q ->
+  prog_eq (expand_mvn (src_mvn_call chol lin_solve) p) (expand_mvn (fun Q b => mvn_call (mvn_prog chol Q b)) q).
+Proof. apply expand_mvn_cong. intros Q b. apply mvn_call_cong, src_sample_mvn_is_model. Qed.
+
+(* ... on well-shaped answers: the expanded node only gives well-shaped answers back when chol keeps the size of Q *)
+Fixpoint grets_ws (P : val -> Prop) (q : gprog val) : Prop :=
+  match q with GRet v => P v | GDraw dr k => forall a, val_ok dr a -> grets_ws P (k a) end.
+
+Lemma gplug_cong_ws (P : val -> Prop) q q' k k' : geq q q' -> grets_ws P q' ->
+  (forall v, P v -> prog_eq_ws (k v) (k' v)) -> prog_eq_ws (gplug q k) (gplug q' k').
+Proof.
+  intros H HP Hk. induction H as [x|dr k1 k2 _ IH]; cbn [gplug grets_ws] in *; [apply Hk, HP|].
+  constructor. intros a Ha. apply IH, HP, Ha.
+Qed.
+
+Lemma expand_mvn_cong_ws f f' p q : (forall Q b, geq (f Q b) (f' Q b)) -> (forall Q b, grets_ws (val_ok (DMvn Q b)) (f' Q b)) ->
+  prog_eq_ws p q -> prog_eq_ws (expand_mvn f p) (expand_mvn f' q).
+Proof.
+  intros Hf Hok H. induction H as [s|dr k1 k2 Hk IH]; cbn [expand_mvn]; [apply prog_eq_ws_refl|].
+  destruct dr; try (constructor; intros v Hv; apply IH, Hv).
+  apply (gplug_cong_ws (val_ok (DMvn Q b))); [apply Hf | apply Hok | intros v Hv; apply IH, Hv].
+Qed.
+
+Lemma sample_mvn_length D L z b : length (sample_mvn D L z b) = D.
+Proof. unfold sample_mvn, vadd. apply C08Sums.tab_length. Qed.
+
+Lemma mvn_prog_answers chol Q b : (forall Q L, chol Q = Ok L -> length L = length Q) ->
+  grets_ws (val_ok (DMvn Q b)) (mvn_call (mvn_prog chol Q b)).
+Proof.
+  intros Hc. unfold mvn_call, mvn_prog. destruct (chol Q) as [L|t] eqn:E; cbn [gbind grets_ws mvn_answer val_ok].
+  - intros a _. right. eexists. split; [reflexivity|]. rewrite sample_mvn_length. now apply Hc.
+  - now left.
+Qed.
+
+(* the whole sweep with the MVN draws expanded: from a reachable state the translated mcmc_step, running the translated block
+   methods and the translated sample_mvn_from_precision, is the model's sweep with the model's mvn_prog at every MVN node *)
+Theorem src_sweep_mvn chol lin_solve g orc d s n : (forall Q L, chol Q = Ok L -> length L = length Q) ->
+  reach g orc d s -> (0 < c_D g)%nat ->
+  prog_eq_ws (expand_mvn (src_mvn_call chol lin_solve) (to_prog (src_mcmc_step (src_run true true true g d orc) n s)))
+             (expand_mvn (fun Q b => mvn_call (mvn_prog chol Q b)) (mcmc_step g d orc s)).
+Proof.
+  intros Hc Hr HD. apply expand_mvn_cong_ws.
+  - intros Q b. apply mvn_call_cong, src_sample_mvn_is_model.
+  - intros Q b. now apply mvn_prog_answers.
+  - now apply src_sweep_reachable.
+Qed.
+
+(* the law of the model's mvn_prog under np.linalg.cholesky's contract (C08_mvn_mean_cov at D = the size of Q) *)
+Theorem mvn_prog_law chol Q L b : chol_contract chol -> chol Q = Ok L -> length b = length Q ->
+  let D := length Q in let m := mvn_mean D L b in
+  mvn_prog chol Q b = GDraw (DNormalVec (repeat 1 D)) (fun v => GRet (Ok (sample_mvn D L (val_v v) b))) /\
+  (forall j, (j < D)%nat -> sumn D (fun k => vnth (rnth Q j) k * vnth m k) = vnth b j) /\
+  (forall z j, (j < D)%nat -> sumn D (fun k => vnth (rnth L k) j * (vnth (sample_mvn D L z b) k - vnth m k)) = vnth z j).
+Proof.
+  intros Hc E Hb. destruct (Hc Q L E) as (HL & Hlow & Hdiag & HQ). cbv zeta. split; [|split].
+  - unfold mvn_prog. rewrite E, HL. reflexivity.
+  - intros j Hj. now apply (C08Mvn.mvn_mean_solves (length Q) L Hlow Hdiag HL Q HQ b j).
+  - intros z j Hj. now apply (C08Mvn.mvn_sample_law (length Q) L Hlow Hdiag z b j).
+Qed.
+
+(* ================================================================ the wrapper class SparseDrugCombo *)
+(* __init__: the experiment space's sizes become n_clines / n_drugdoses, the embedding dimension n_dims, every option and
+   hyper-parameter reaches the parameter of the same name of the translated legacy constructor (run on a new instance) *)
+Theorem src_sdc_init_is_model self0 nS nT D fi ie ls a0 b0 mn mx rng pint ilt ic :
+  src_sdc_init self0 (Z.of_nat nS) (Z.of_nat nT) (Z.of_nat D) fi ie true ls a0 b0 mn mx rng pint ilt ic
+  = Ok (sdc_init_obj nS nT D fi ie true ls a0 b0 mn mx rng pint ilt ic).
+Proof.
+  cbv beta delta [src_sdc_init]. cbv beta iota zeta delta [sdc_n_dims sdc_n_treatments sdc_n_samples sdc_rng sdc_predict_interactions
+    sdc_interaction_log_transform sdc_wrapped set_sdc_n_dims set_sdc_n_treatments set_sdc_n_samples set_sdc_rng
+    set_sdc_predict_interactions set_sdc_interaction_log_transform set_sdc_wrapped].
+  rewrite src_impl_init_is_model. reflexivity.
+Qed.
+
+(* get_model_state exports exactly the model's [export]: W, W0, V2, V1, V0, alpha and the observation precision *)
+Theorem src_sdc_get_model_state_is_model o : src_sdc_get_model_state o = Ok (export (pi_st (sdc_wrapped o))).
+Proof. reflexivity. Qed.
+
+Theorem src_sdc_n_obs_is_model o d : obs_rep (pi_obs (sdc_wrapped o)) d -> src_sdc_n_obs o = Ok (Z.of_nat (nobs d)).
+Proof. intros (Hy & _). unfold src_sdc_n_obs, src_impl_n_obs, nobs. cbn [res_bind]. now rewrite Hy. Qed.
+
+(* reset_model resets the wrapped object's state (the translated legacy reset_model) and nothing else *)
+Theorem src_sdc_reset_is_model o :
+  src_sdc_reset_model o = Ok (sdc_with_state o (reset_st (pi_st (sdc_wrapped o)))).
+Proof. unfold src_sdc_reset_model. rewrite src_impl_reset_is_model. reflexivity. Qed.
+
+Theorem src_sdc_set_rng_is_model o r : src_sdc_set_rng o r = Ok (set_sdc_rng o (Some r)) /\ src_sdc_rng o = Ok (sdc_rng o).
+Proof. split; reflexivity. Qed.
+
+(* step is one call of the wrapped object's mcmc_step: the sweep's program, the wrapper then holding the new state *)
+Theorem src_sdc_step_is_model run o :
+  geq (src_sdc_step run o)
+      (gbind (src_mcmc_step run (pi_steps (sdc_wrapped o)) (pi_st (sdc_wrapped o))) (fun s => GRet (sdc_with_state o s))).
+Proof. unfold src_sdc_step. apply gbind_ret. Qed.
+
+(* ... hence, read on the wrapped object's state, the model's sweep (from every reachable state, well-shaped answers) *)
+Theorem src_sdc_step_sweep g orc d o : reach g orc d (pi_st (sdc_wrapped o)) -> (0 < c_D g)%nat ->
+  prog_eq_ws (to_prog (gbind (src_sdc_step (src_run true true true g d orc) o) (fun o' => GRet (pi_st (sdc_wrapped o')))))
+             (mcmc_step g d orc (pi_st (sdc_wrapped o))).
+Proof.
+  intros Hr HD. eapply prog_eq_ws_trans; [|apply (src_sweep_reachable g orc d _ (pi_steps (sdc_wrapped o)) Hr HD)].
+  apply prog_eq_ws_of_eq, to_prog_geq.
+  eapply geq_trans; [apply gbind_cong; [apply src_sdc_step_is_model | intros x; apply geq_refl]|].
+  eapply geq_trans; [apply gbind_assoc|]. cbn [gbind]. apply gbind_ret.
 Qed.
